@@ -424,7 +424,9 @@ func ruleBuilder(c *Check, p *Prog, g *Graph, step *ssa.Function) {
 // fromBatch: the value derives from the response of Sequencer.GetNextBatch (looking through the
 // repo functions that return it).
 func fromBatch(p *Prog, t *Term) bool {
-	return p.DeepContains(t, func(x *Term) bool { return x.Op == "invoke" && strings.HasSuffix(x.Name, "sequencer.Sequencer).GetNextBatch") }, 4)
+	return p.DeepContains(t, func(x *Term) bool {
+		return x.Op == "invoke" && strings.HasSuffix(x.Name, "sequencer.Sequencer).GetNextBatch")
+	}, 4)
 }
 
 func regexpHeightArg(s string) bool {
